@@ -125,7 +125,6 @@ var _ merger.TypeURLMap
 //@ requires ctx != nil
 //@ assumes[routing-table] merger.wfTM(ctx.TypeURLMap)
 //@ assumes[schema] forallT(k, string, has(ctx.Schema.Types, k) ==> ctx.Schema.Types[k] != nil)
-//@ modifies-assumed anything
 //@ callsite addFieldToNodeQuery requires[same-service] atlast(IsEqual, step) == step && atlast(IsEqual, loc) == loc && atlast(IsEqual, step.URL) == loc @props C01
 //@ callsite addFieldToNodeQuery requires[same-insertion-point] lastresult(IsEqual) && atlast(IsEqual, step) == step && sameslice(lastarg(IsEqual, 0), atlast(IsEqual, step.InsertionPoint)) && sameslice(lastarg(IsEqual, 1), insertionPoint) @props C01
 //@ end
